@@ -68,9 +68,14 @@ def session_item(i, s, wd, mode, outline):
             disk[f + ".td"] = render_text(f, t)
     steps = []
     known = set()
+    docver = {}          # the editor's version of each document: 1 at didOpen (also after a re-open), +1 with every change
     for e in s["hist"]:
         f = e["file"]
-        steps.append({"op": {"Open": "open", "Reopen": "reopen"}.get(e["ev"], "change"), "file": f + ".td", "v": e["t"]["k"],
+        if e["ev"] == "Save":
+            steps.append({"op": "save", "file": f + ".td"})
+            continue
+        docver[f] = 1 if e["ev"] in ("Open", "Reopen") else docver.get(f, 0) + 1
+        steps.append({"op": {"Open": "open", "Reopen": "reopen"}.get(e["ev"], "change"), "file": f + ".td", "v": docver[f],
                       "text": render_text(f, e["t"]), "t": e["t"], "f": f})
         known.add(f)
         if mode == "settled":
@@ -299,7 +304,7 @@ REQ_KINDS = [
 ]
 
 
-def msgs_session(i, msgs, wd, rot, schedule=None, hold=None, big=False):
+def msgs_session(i, msgs, wd, rot, schedule=None, hold=None, big=False, same_kind=False):
     """the concrete session for an abstract message sequence: N = didOpen/didChange of a.td (which includes b.td), R = a request"""
     body = "".join("def D%d : M_b_0;\n" % j for j in range(400)) if big else ""
     disk = {"b.td": "class M_b_0;\n" + ("def Y : U_b_0;\n" if rot % 2 else "")}
@@ -311,7 +316,7 @@ def msgs_session(i, msgs, wd, rot, schedule=None, hold=None, big=False):
             steps.append({"op": "open" if k == 1 else "change", "file": "a.td", "v": k, "text": text})
         else:
             method, params = REQ_KINDS[r % len(REQ_KINDS)]
-            r += 1
+            r += 0 if same_kind else 1
             if k == 0:
                 # a request before any document is known would be a client error: open first
                 k += 1
@@ -408,6 +413,12 @@ def check_c08(tier, seed):
         items.append(msgs_session(len(items), sh, wd, rng.randrange(8), big=rng.random() < 0.3))
         items[-1]["steps"].append({"op": "quiet"})
         meta.append({"family": "burst", "msgs": sh})
+    # pipelined requests of one and the same kind for one document (a newer request may supersede an older one of its kind)
+    for kind in range(len(REQ_KINDS)):
+        for sh in ((["N"] + ["R"] * 40), (["N"] + ["R"] * 25 + ["N"] + ["R"] * 25)) if not quick or kind % 2 == 0 else ((["N"] + ["R"] * 40),):
+            items.append(msgs_session(len(items), sh, wd, kind, big=(kind % 3 == 0), same_kind=True))
+            items[-1]["steps"].append({"op": "quiet"})
+            meta.append({"family": "burst", "msgs": sh, "same_kind": REQ_KINDS[kind][0]})
     # the binary as shipped: bursts with more requests in flight than the machine has cores
     binary = build_binary()
     nburst = 0
